@@ -13,12 +13,45 @@ import (
 
 // C20 — DTLS 1.3 key updates keep data exactly-once and epochs monotonic.
 //
-// Enumerated (see enumerate below): established DTLS 1.3 pair x every operation sequence up to a length
-// bound over {Uc, UcR, Us, UsR, Wc, Ws} x start overlap (number of network transitions between two
-// operation starts) x every delivery schedule with a bounded number of deviations over the datagrams of
-// the data phase, x (optionally) a late byte copy of every data-phase datagram, plus a forged-record
-// family (records sealed by the reference under not-yet-authorised / old generations).
-// Oracle: oracle.go.
+// Scenario. A real DTLS 1.3 client/server pair ("13-direct"; also with 4-byte connection IDs and, in the
+// thorough tier, with TLS_CHACHA20_POLY1305_SHA256 and TLS_AES_256_GCM_SHA384) is established over a
+// reliable network and run to full quiescence (NewSessionTicket and its ACK included). One reader
+// goroutine per side then collects everything Read returns. The data phase executes an operation
+// sequence over {Uc, UcR, Us, UsR, Wc, Ws} (U = UpdateKeys without / with RequestPeerUpdate, W = Write
+// of a distinct payload); every operation is started without waiting for the previous one to return,
+// `gap` network transitions after the previous start. The network then applies a fault mask (indices
+// count the datagrams each side emits from the start of the data phase) and is reliable afterwards; the
+// run ends when a whole 61 s round of fake time (> the 60 s retransmission cap) passes without emission.
+//
+// Enumerated families (boundsFor / enumerate):
+//
+//	A  every sequence of length <= 3 (quick) / <= 4 (thorough) x gap in {0,1,2} / {0,1,2,3} x every mask
+//	   with <= 1 deviation (drop, dup, swap, hold1; thorough adds hold3, late duplicate)
+//	B  exactly 2 deviations: sequences of length <= 2 / <= 3 (the longest length with drop and dup only)
+//	C  fault-free schedules for the longer sequences (thorough: length 5)
+//	D  A-like runs of length <= 2 / <= 3 followed by a late byte copy of every data-phase datagram
+//	E  forged records: sequences of length <= 2 / <= 3 (+ one write in each direction) executed
+//	   sequentially; at every quiescent point, towards either side, a record sealed BY THE REFERENCE under
+//	   generation authorised+1, authorised+2, or under every older generation (each twice)
+//	G  4 and 5 updates in a row (epoch-bit wrap-around) with forged records and late copies
+//	F  families A, D, E (reduced) with connection IDs and the other suites
+//
+// Oracle (oracle.go), evaluated on the emission log decrypted with reference keys only (decode.go: the
+// first application traffic secrets are read once after the handshake, every later generation is
+// HKDF-Expand-Label(previous, "traffic upd", "", Hash.length) computed by refimpl):
+//
+//	1  UpdateKeys returned nil => an ACK record listing a record number of one of the caller's KeyUpdate
+//	   messages (same request flag) had been delivered to it at or before the step of the return
+//	   (injective assignment of calls to acknowledged messages); every call returns nil eventually
+//	2  every payload is delivered at most once, nothing else is delivered, and a payload whose datagram
+//	   arrived is delivered unless the receiver had retired its generation before every arrival
+//	3  per side the generation of emitted records never decreases in emission order
+//	4  every data-phase record opens under the reference generation named by its epoch bits
+//	5  a forged record is delivered only if its generation had been authorised (the authorising KeyUpdate
+//	   had arrived) by the step of the delivery and was still installed then, and at most once; a record
+//	   under an unauthorised generation provokes no emission and no epoch change while unauthorised
+//
+// A case is non-trivial when every fault of its mask fired and at least one KeyUpdate was acknowledged.
 
 func runCase(t *testing.T, p *world.PKI, sc scen, seed uint64) run.Outcome {
 	var o run.Outcome
@@ -248,6 +281,28 @@ func enumerate(thorough bool, add func(s scen)) {
 					add(scen{V: base, Ops: full, Gap: -1, Inj: &inject{At: at, To: to, Kind: kind}})
 				}
 			}
+		}
+	}
+	// G. epoch-bit wrap-around: 4 and 5 updates in a row (epochs 7 and 8 share their two header bits with
+	// epochs 3 and 4), then forged records, one write in each direction, and late copies
+	for _, n := range []int{4, 5} {
+		for k := opUcNo; k <= opUsReq; k++ {
+			var ops []opKind
+			for i := 0; i < n; i++ {
+				ops = append(ops, k)
+			}
+			full := append(append([]opKind(nil), ops...), opWc, opWs)
+			for _, to := range []side{cli, srv} {
+				for _, kind := range []injKind{injNext, injNext2, injOld} {
+					if kind == injOld && staticAuth(ops, to) == 0 {
+						continue
+					}
+					add(scen{V: base, Ops: full, Gap: -1, Inj: &inject{At: n, To: to, Kind: kind}})
+				}
+			}
+			add(scen{V: base, Ops: full, Gap: -1, Replay: true})
+			add(scen{V: base, Ops: full, Gap: 0, Replay: true})
+			add(scen{V: base, Ops: full, Gap: 2, Mask: world.Mask{{FromClient: k.side() == cli, Idx: n - 1, Act: world.ActDrop}}, Replay: true})
 		}
 	}
 	// F. other configurations: connection IDs, other suites
